@@ -458,6 +458,11 @@ fn c0(r: &mut Rng, out: &mut Vec<u8>, focus: Focus) {
 
 /// one grammar token
 fn token(r: &mut Rng, out: &mut Vec<u8>, utf8: bool, g: Geo, focus: Focus, risky: bool) {
+    // a program that paints the same thing at the same place again after something else touched it
+    if matches!(focus, Focus::Any | Focus::Text | Focus::Erase | Focus::InsDel | Focus::Resize | Focus::Sgr) && r.chance(1, 22) {
+        redraw_pattern(r, out, utf8, g);
+        return;
+    }
     // weights: text, c0, esc, csi-any, csi-move, csi-scroll, csi-erase, csi-insdel, sgr, mode, osc, tabs, charset, unsupported, cup
     let w: [u32; 15] = match focus {
         Focus::Any | Focus::Grammar => [22, 10, 8, 10, 8, 5, 5, 5, 6, 5, 4, 3, 3, 3, 3],
@@ -524,6 +529,32 @@ fn token(r: &mut Rng, out: &mut Vec<u8>, utf8: bool, g: Geo, focus: Focus, risky
     }
 }
 
+/// CUP(r,c) T ; CUP(r,c+k) U ; CUP(r,c) T  - the second T repaints what U disturbed
+fn redraw_pattern(r: &mut Rng, out: &mut Vec<u8>, utf8: bool, g: Geo) {
+    let row = r.range(1, g.lines as u64);
+    let col = r.range(1, g.cols as u64);
+    let mut t = Vec::new();
+    let n = r.range(1, 3);
+    for _ in 0..n {
+        let c = if r.chance(1, 2) { *r.pick(WIDE) } else { *r.pick(&NARROW.chars().collect::<Vec<_>>()) };
+        push_char(&mut t, c, utf8);
+    }
+    let k = r.below(4);
+    let mut u = Vec::new();
+    match r.below(5) {
+        0 => push_char(&mut u, *r.pick(WIDE), utf8),
+        1 => u.extend_from_slice(b"\x1b[K"),
+        2 => u.extend_from_slice(b"\x1b[P"),
+        _ => push_char(&mut u, *r.pick(&NARROW.chars().collect::<Vec<_>>()), utf8),
+    }
+    out.extend_from_slice(format!("\x1b[{};{}H", row, col).as_bytes());
+    out.extend_from_slice(&t);
+    out.extend_from_slice(format!("\x1b[{};{}H", row, col + k).as_bytes());
+    out.extend_from_slice(&u);
+    out.extend_from_slice(format!("\x1b[{};{}H", row, col).as_bytes());
+    out.extend_from_slice(&t);
+}
+
 fn esc_seq_from(r: &mut Rng, out: &mut Vec<u8>, finals: &[u8]) {
     out.push(0x1b);
     out.push(*r.pick(finals));
@@ -581,8 +612,29 @@ fn editor(r: &mut Rng, out: &mut Vec<u8>, g: Geo, utf8: bool, focus: Focus, len:
         out.extend_from_slice(*r.pick(&[&b"\x1b[4h"[..], b"\x1b[?7l", b"\x1b[20h", b"\x1b[?5h"]));
     }
     let start = out.len();
-    while out.len() - start < len {
-        token(r, out, utf8, g, focus, false);
+    let target = start + len;
+    tokens_with_repeats(r, out, utf8, g, focus, false, target);
+}
+
+/// Tokens until `out` reaches `target` bytes; now and then a run of earlier tokens is emitted
+/// again verbatim (full-screen programs redraw the same content at the same place all the time).
+fn tokens_with_repeats(r: &mut Rng, out: &mut Vec<u8>, utf8: bool, g: Geo, focus: Focus, risky: bool, target: usize) {
+    let mut hist: Vec<Vec<u8>> = Vec::new();
+    while out.len() < target {
+        if hist.len() >= 2 && r.chance(1, 9) {
+            let start = r.below(hist.len() as u64) as usize;
+            let n = r.range(1, 4) as usize;
+            for t in hist.iter().skip(start).take(n) {
+                out.extend_from_slice(t);
+            }
+            continue;
+        }
+        let before = out.len();
+        token(r, out, utf8, g, focus, risky);
+        hist.push(out[before..].to_vec());
+        if hist.len() > 12 {
+            hist.remove(0);
+        }
     }
 }
 
@@ -675,9 +727,7 @@ pub fn program(r: &mut Rng, p: &Profile, g: Geo, utf8: bool, len: usize) -> Sess
     match kind {
         Kind::Grammar => {
             let risky = r.chance(1, 3);
-            while out.len() < len {
-                token(r, &mut out, utf8, g, p.focus, risky);
-            }
+            tokens_with_repeats(r, &mut out, utf8, g, p.focus, risky, len);
         }
         Kind::Text => {
             while out.len() < len {
@@ -791,8 +841,19 @@ pub fn cut(r: &mut Rng, bytes: &[u8], char_safe: bool, fc: &mut FaultCounts) -> 
     let n = bytes.len();
     let ok = |i: usize| -> bool { !char_safe || i == n || (bytes[i] & 0xc0) != 0x80 };
     let mut cuts: Vec<usize> = Vec::new();
-    match r.below(10) {
+    match r.below(11) {
         0..=1 => {}
+        10 => {
+            // fixed-size reads (buffer sizes of real readers), offset by a short first read
+            let size = *r.pick(&[2usize, 3, 4, 7, 8, 15, 16, 31, 32, 33, 62, 63, 64, 65, 127, 128, 129]);
+            let mut i = r.range(0, size as u64) as usize;
+            while i < n {
+                if i > 0 {
+                    cuts.push(i);
+                }
+                i += size;
+            }
+        }
         2..=3 => {
             for i in 1..n {
                 cuts.push(i);
